@@ -7,14 +7,17 @@ def enc(name, entry, ml, title, q=13, **kw):
          "units": ["sm2_enc.c", "sm2_z256.c"], "models": ["models/sm2_small.c", "models/sm2_small_codec.c", "models/sm3_rec.c"],
          "remove": {"sm2_z256.c": SMALL_REMOVE + Z256_IO + ["sm2_z256_point_from_bytes"], "sm2_enc.c": ENC_OTHER},
          "defs": ["-DSMALL_Q=%d" % q, "-DML=%d" % ml, "-DREC_CAP=128", "-DREC_SLOTS=8"], "unwind": 130, "timeout": 900, "title": title,
-         "cbmc": ["--no-unwinding-assertions"], "unwindset": ["sm2_do_encrypt.0:2", "sm2_do_encrypt.1:2"],
+         "cbmc": ["--no-unwinding-assertions", "--max-field-sensitivity-array-size", "130"], "unwindset": ["sm2_do_encrypt.0:2", "sm2_do_encrypt.1:2"],
          "bounds": "group order %d (M4), message %d bytes (all contents), all keys, nonces, coordinate tables; nonce retry paths cut after the first draw" % (q, ml),
          "stubs": ["M4 small-field group model incl. affine import", "M2 SM3 recorder (real sm2_kdf on top)"]}
     d.update(kw)
     return d
 OBLIGATIONS = []
 for ml, t in ((1, "quick"), (2, "quick"), (3, "thorough"), (33, "thorough")):
-    OBLIGATIONS.append(enc("encrypt_decrypt", "h_encrypt_decrypt", ml, "sm2_do_encrypt / sm2_do_encrypt_ex: ciphertext = GB/T 32918.4 value for the nonce drawn; sm2_do_decrypt inverts", tier=t))
+    OBLIGATIONS.append(enc("encrypt_decrypt", "h_encrypt_decrypt", ml, "sm2_do_encrypt: ciphertext = GB/T 32918.4 value for the nonce drawn; sm2_do_decrypt inverts", tier="thorough", timeout=3000,
+                           defs=["-DSMALL_Q=13", "-DML=%d" % ml, "-DREC_CAP=128", "-DREC_SLOTS=8", "-DWHICH=1"]))
+    OBLIGATIONS.append(enc("encrypt_ex_decrypt", "h_encrypt_decrypt", ml, "sm2_do_encrypt_ex (pre-computed nonce): ciphertext = GB/T 32918.4 value; sm2_do_decrypt inverts; all-zero t reported", tier="thorough", timeout=3000,
+                           defs=["-DSMALL_Q=13", "-DML=%d" % ml, "-DREC_CAP=128", "-DREC_SLOTS=8", "-DWHICH=0"]))
     OBLIGATIONS.append(enc("decrypt_sound", "h_decrypt_sound", ml, "sm2_do_decrypt accepts => C1 finite curve point, t != 0, M = C2 xor KDF([d]C1), all 32 bytes of C3 = H(x2||M||y2)", tier=t))
 for cl in (1, 3, 40):
     OBLIGATIONS.append({"id": "C02-b.ciphertext_der.c%d" % cl, "harness": "harness/C02/der.c", "entry": "h_ciphertext_roundtrip", "units": ["sm2_enc.c", "asn1.c"],
